@@ -11,12 +11,15 @@ EXTENDS Auth, Json, IOUtils, SequencesExt
 
 Steps == ndJsonDeserialize(IOEnv.AUTH_STEPS)
 K     == [W |-> 8, framed |-> IOEnv.AUTH_FRAMED = "true"]
+Idx   == DOMAIN Steps
+
+\* every step is judged once
+J == [i \in Idx |-> Judge(Steps[i].pre, Steps[i].req, Steps[i].resp.ok, K)]
 
 VARIABLES l, g
 Init == l = 1 /\ g = InitGhost
 Next == /\ l <= Len(Steps)
-        /\ LET e == Steps[l] IN
-           g' = Ghost(IF e.step = 0 THEN InitGhost ELSE g, e.pre, e.req, Resp(e.resp.ok), K)
+        /\ g' = GhostJ(IF Steps[l].step = 0 THEN InitGhost ELSE g, Steps[l].resp.ok, J[l])
         /\ l' = l + 1
 Spec == Init /\ [][Next]_<<l, g>>
 
@@ -24,30 +27,29 @@ C17a == Inv_C17a(g)
 C17b == Inv_C17b(g)
 C17c == Inv_C17c(g)
 
-Idx == DOMAIN Steps
-Conforms(e) == LET o == Step(e.pre, e.req, K) IN
+IsCheck(i)  == Steps[i].req.op # "NewNonce"
+Conforms(i) == LET e == Steps[i] IN
                /\ Applicable(e.pre, e.req)
-               /\ o.resp.ok = e.resp.ok /\ e.resp.aux = 1 /\ o.s = e.post
-Divergent == {i \in Idx : ~Conforms(Steps[i])}
+               /\ J[i].exp = e.resp.ok /\ e.resp.aux = 1
+               /\ NextS(e.pre, e.req) = e.post
+Divergent == {i \in Idx : ~Conforms(i)}
 Broken    == {i \in Idx : i > 1 /\ Steps[i].step > 0 /\ Steps[i].pre # Steps[i - 1].post}
-Checks    == {i \in Idx : Steps[i].req.op # "NewNonce"}
-Violating == {i \in Checks : Steps[i].resp.ok /\ Verdict(Steps[i].pre, Steps[i].req, K).mon # "ok"}
-RefusedMods == {i \in Checks : ~Steps[i].resp.ok /\ Verdict(Steps[i].pre, Steps[i].req, K).mon # "ok"}
-ImplStricter == {i \in Checks : ~Steps[i].resp.ok /\ Verdict(Steps[i].pre, Steps[i].req, K).mon = "ok"}
-KeyAt(i)  == KeyOf(Steps[i].pre, Steps[i].req, K)
+Violating == {i \in Idx : Steps[i].resp.ok /\ J[i].mon # "ok"}
+RefusedMods == {i \in Idx : ~Steps[i].resp.ok /\ J[i].mon # "ok"}
+ImplStricter == {i \in Idx : IsCheck(i) /\ ~Steps[i].resp.ok /\ J[i].mon = "ok"}
+KeyAt(i)  == J[i].key
 Keys      == {KeyAt(i) : i \in Violating}
 
 Describe(i) == LET e == Steps[i] IN
   [line |-> i, seq |-> e.seq, step |-> e.step, n |-> e.pre.n, req |-> e.req, ok |-> e.resp.ok, aux |-> e.resp.aux,
-   expected_ok |-> Step(e.pre, e.req, K).resp.ok,
+   expected_ok |-> J[i].exp,
    verdict |-> IF e.req.op = "NewNonce" THEN [mon |-> "ok", rel |-> "legit"] ELSE Verdict(e.pre, e.req, K)]
 First(S, k) == LET q == SetToSeq(S) IN SubSeq(q, 1, IF Len(q) < k THEN Len(q) ELSE k)
 
 Report == [ steps |-> Len(Steps),
-            accepted |-> Cardinality({i \in Checks : Steps[i].resp.ok}),
+            accepted |-> Cardinality({i \in Idx : IsCheck(i) /\ Steps[i].resp.ok}),
             refused_modifications |-> Cardinality(RefusedMods),
-            max_n |-> IF Idx = {} THEN 0 ELSE CHOOSE m \in {Steps[i].post.n : i \in Idx} :
-                                                 \A i \in Idx : Steps[i].post.n <= m,
+            max_n |-> FoldLeft(LAMBDA acc, e : IF e.post.n > acc THEN e.post.n ELSE acc, 0, Steps),
             sample_refused |-> First({Describe(i) : i \in RefusedMods}, 2),
             impl_stricter |-> First({Describe(i) : i \in ImplStricter}, 20),
             divergence_count |-> Cardinality(Divergent),
